@@ -1,6 +1,6 @@
 (* C02 - property theorems.  Model: V.C02.Model (SmodelsConvert/SmData call-for-call, SmodelsOutput's acceptance
    conditions); specification-side definitions: V.C02.Spec; reference semantics: V.C02.Sem. *)
-Require Import V.Lib.Base V.Lib.Calls V.Gen.Consts V.Gen.Consts_C02 V.C02.Model V.C02.Spec V.C02.ProofsMap V.C02.ProofsErr V.C02.Sem V.C02.ProofsSem V.C02.ProofsIso V.C02.ProofsShape V.C02.ProofsDefExt V.C02.ProofsWeight.
+Require Import V.Lib.Base V.Lib.Calls V.Gen.Consts V.Gen.Consts_C02 V.C02.Model V.C02.Spec V.C02.ProofsMap V.C02.ProofsErr V.C02.Sem V.C02.ProofsSem V.C02.ProofsIso V.C02.ProofsShape V.C02.ProofsDefExt V.C02.ProofsWeight V.C02.ProofsOutput V.C02.ProofsExt V.C02.ProofsCompose.
 Local Open Scope Z_scope.
 
 (* (1) The atom map.  For EVERY call sequence p (any mix of directives, any number of steps, extensions on or off) that the
@@ -109,11 +109,8 @@ Proof. vm_compute. reflexivity. Qed.
    on or off): the rules the converter emits have, under push/pull along the final atom map (injective on the program's atoms),
    exactly the stable models of the input rules, the false atom being false (the compute statement emitted at endStep).
    push/pull are mutually inverse by c02_rename_iso.
-   MISSING for the full c02_equiv: (A) the same shape lemma for weight rules (pass-through and the `aux :- sum`, `H :- aux` split),
-   for `aux :- cond` of outputs, and for the choice rule / facts of externals; (B) defext - a fresh atom defined by one rule and
-   used positively elsewhere preserves stable models up to that atom (needs weights >= 0); (C) the composition with c02_cost, the
-   shown-name and external-status corollaries, and c02_steps.  The python oracle checks the end-to-end statement by brute force
-   on every generated small program instead (props/C02.py). *)
+   SUPERSEDED by c02_equiv_weight (weight rules) and c02_equiv_partial2 (a whole step with all of rule / weight rule /
+   minimize / output / external) below; kept because it is the simplest instance. *)
 Theorem c02_equiv_partial : forall ext ds s s1 out,
   forallb is_rule ds = true -> Forall valid_ht ds -> Forall call_atoms_pos ds ->
   cv_run ext s ds = Ok (s1, out) -> Inv s -> next s1 <= 2 ^ smid_bits ->
@@ -177,7 +174,8 @@ Qed.
 Theorem c02_wrule_shape : forall ext s c s1 out sf,
   is_wrule c = true -> cv_call ext s c = Ok (s1, out) -> Inv s -> good s1 sf -> next sf <= 2 ^ smid_bits ->
   exists ann, out = emitA (img sf) c ann /\ ann_ok c ann /\ mappedA (img sf) c /\
-    match ann with Some x => next s <= x < next s1 /\ In x (auxs sf) | None => True end.
+    match ann with Some x => next s <= x < next s1 /\ In x (auxs sf) | None => True end /\
+    map sym_na (outs s1) = map sym_na (outs s) ++ symsA (img sf) c ann.
 Proof. exact wrule_call_shape. Qed.
 Print Assumptions c02_wrule_shape.
 
@@ -222,4 +220,155 @@ Proof.
            | |- _ => lia
            end.
   - do 2 eexists. split; [vm_compute; reflexivity|]. split; [vm_compute; discriminate | vm_compute; reflexivity].
+Qed.
+
+(* (7) Outputs (A2).  Shape: an output directive either names the image of its single positive condition atom directly
+   (ann = None, nothing emitted) or emits `aux :- renamed condition` (ann = Some aux, an auxiliary atom of the final state)
+   and names aux; in both cases exactly one symbol (name cut at the first NUL, atom) is appended to output_ (symsA). *)
+Theorem c02_output_shape : forall ext s c s1 out sf,
+  is_output c = true -> cv_call ext s c = Ok (s1, out) -> Inv s -> good s1 sf -> next sf <= 2 ^ smid_bits ->
+  exists ann, out = emitA (img sf) c ann /\ ann_ok c ann /\ mappedA (img sf) c /\
+    match ann with Some x => next s <= x < next s1 /\ In x (auxs sf) | None => True end /\
+    map sym_na (outs s1) = map sym_na (outs s) ++ symsA (img sf) c ann.
+Proof. exact output_call_shape. Qed.
+Print Assumptions c02_output_shape.
+
+(* Value: in interpretations X (input) / X' (output) that agree on the mapped condition atoms, and in which the aux atom (if
+   one was made) has the value of its defining body, the symbol's atom is true in X' exactly when the condition holds in X,
+   and the symbol carries the directive's name.  flushSymbols writes every symbol of output_ as `output(name, [atom])`. *)
+Theorem c02_output_value : forall m n cond ann X X',
+  call_wf (COutput n cond) -> mappedA m (COutput n cond) -> ann_ok (COutput n cond) ann ->
+  (forall a, m a <> 0 -> 0 < m a) ->
+  (forall l, In l cond -> X' (m (Z.abs l)) = X (Z.abs l)) ->
+  (forall x, ann = Some x -> X' x = bsat X' X' (BNormal (map (rn_lit m) cond))) ->
+  forall nm y, In (nm, y) (symsA m (COutput n cond) ann) -> nm = n /\ X' y = forallb (holds X) cond.
+Proof. exact output_value. Qed.
+Print Assumptions c02_output_value.
+
+Theorem c02_output_symbols : forall s c,
+  In c (flushSymbols s) <-> exists nm y, c = COutput nm [y] /\ In (nm, y) (map sym_na (outs s)).
+Proof. exact In_flushSymbols. Qed.
+Print Assumptions c02_output_symbols.
+
+Example c02_output_nonvacuous :
+  (* output a : x1.  output b : x1 (x1 already named -> aux).  output c : x1, not x2 (compound -> aux) *)
+  let ds := [COutput [97] [1]; COutput [98] [1]; COutput [99] [1; -2]] in
+  exists s1 out, cv_run false cv0 ds = Ok (s1, out) /\
+    out = [CRule 0 [3] [2]; CRule 0 [4] [2; -5]] /\ map sym_na (outs s1) = [([97], 2); ([98], 3); ([99], 4)].
+Proof. do 2 eexists. split; [vm_compute; reflexivity|]. split; vm_compute; reflexivity. Qed.
+
+(* (8) Externals (A3).  Flags: after any run of rule / weight rule / output / external / minimize calls, an atom's head
+   flag is its old flag or "occurs in a head of the run"; for an atom that is no head at the end, the stored value is the
+   LAST declared value (mod 4) and the atom is queued iff it was queued before or is declared in the run. *)
+Theorem c02_external_flags : forall ext ds s s1 out, forallb okc ds = true -> cv_run ext s ds = Ok (s1, out) ->
+  (forall b, ahead1 s1 b = (ahead1 s b || in_head (rules_of ds) b)) /\
+  (forall b, ahead1 s1 b = false ->
+     aextn1 s1 b = match ext_value b (decls ds) None with Some v => v mod 2 ^ extn_bits | None => aextn1 s b end /\
+     (In b (exts s1) <-> In b (exts s) \/ In b (map fst (decls ds)))).
+Proof. exact run_fx. Qed.
+Print Assumptions c02_external_flags.
+
+(* Without the extensions the flush emits rules whose reduct-level meaning is exactly: for every queued atom a that is no
+   head, value Free -> `{m a}` (a choice), value True -> `m a.` (a fact), False / Release -> nothing (ext_sem); all emitted
+   bodies are empty and all heads are images of queued non-head atoms.  Sem.ext_rules has the same meaning (second theorem). *)
+Theorem c02_external_rules : forall s sf X' Y',
+  Inv s -> good (fst (flushExternal false s)) sf -> next sf <= 2 ^ smid_bits ->
+  (red_model (rules_of (snd (flushExternal false s))) X' Y' <->
+   ext_sem (fun a => In a (exts s)) (ahead1 s) (fun a => Some (aextn1 s a)) (img sf) X' Y') /\
+  Forall (fun a => img sf a <> 0) (exts s) /\
+  (forall r, In r (rules_of (snd (flushExternal false s))) ->
+     r_body r = BNormal [] /\ forall h, In h (r_head r) -> exists a, In a (exts s) /\ ahead1 s a = false /\ h = img sf a).
+Proof. exact flushExternal_false_sem. Qed.
+Print Assumptions c02_external_rules.
+
+Theorem c02_external_sem : forall m P X' Y',
+  red_model (map (rn_rule m) (ext_rules P)) X' Y' <->
+  ext_sem (fun a => In a (map fst (p_ext P))) (in_head (p_rules P)) (fun a => ext_value a (p_ext P) None) m X' Y'.
+Proof. exact ext_rules_sem. Qed.
+Print Assumptions c02_external_sem.
+
+(* With the extensions every queued atom is passed on as `external(m a, stored value)`, in order, and no rule is emitted. *)
+Theorem c02_external_pass : forall es s sf hd,
+  Inv s -> good (fst (fst (flushExternal_f true s es hd))) sf -> next sf <= 2 ^ smid_bits ->
+  snd (fst (flushExternal_f true s es hd)) = map (fun a => CExternal (img sf a) (aextn1 s a)) es /\
+  snd (flushExternal_f true s es hd) = hd /\ Forall (fun a => img sf a <> 0) es.
+Proof. exact flushExternal_true_shape. Qed.
+Print Assumptions c02_external_pass.
+
+Example c02_external_nonvacuous :
+  (* external 1 free, 2 true, 3 false, 4 free but later a head, 2 again (now free): choice {1;2}, nothing else *)
+  let ds := [CExternal 1 0; CExternal 2 1; CExternal 3 2; CExternal 4 0; CRule 0 [4] []; CExternal 2 0] in
+  exists s1 o1 s2 o2, cv_run false cv0 ds = Ok (s1, o1) /\ cv_call false s1 CEnd = Ok (s2, o2) /\
+    rules_of (o1 ++ o2) = [mkRule false [5] (BNormal []); mkRule true [2; 3; 3] (BNormal [])] /\
+    exists t1 p1 t2 p2, cv_run true cv0 ds = Ok (t1, p1) /\ cv_call true t1 CEnd = Ok (t2, p2) /\
+      decls (p1 ++ p2) = [(2, 0); (3, 0); (4, 2); (5, 0); (3, 0)].
+Proof.
+  do 4 eexists. split; [vm_compute; reflexivity|]. split; [vm_compute; reflexivity|]. split; [vm_compute; reflexivity|].
+  do 4 eexists. split; [vm_compute; reflexivity|]. split; vm_compute; reflexivity.
+Qed.
+
+(* (9) Composition (C) - c02_equiv_partial2.  ONE WHOLE STEP, extensions on or off: directives ds among
+   rule / weight rule / minimize / output / external (okc; well-formed as in the aspif contract: call_wf), then endStep,
+   started in any state s0 that satisfies the atom-map invariant and is fresh for the step (no pending minimize / external /
+   output / heuristic entries, no head flags: the state after initProgram/beginStep; earlier show flags and atom images are
+   arbitrary).  With m the final atom map, Pin = the program the directives denote, Pout = the program the emitted calls
+   denote (Sem.of_calls: rules, external declarations, the compute statement `not false_atom`, minimize statements, symbol
+   table) and atoms = the mapped atoms of the step, there is a map fw on interpretations such that
+     - m is injective on atoms;
+     - fw maps the answer sets of Pin to answer sets of Pout, agreeing on every mapped atom (fw X (m a) = X a), with the
+       SAME shown names, and with per-priority cost equal up to the constant negs ds prio of c02_cost;
+     - pull m atoms maps the answer sets of Pout (which all make the false atom false) to answer sets of Pin, and
+       fw (pull X') = X' pointwise, pull (fw X) = X pointwise: a bijection.
+   Externals: Sem.answer gives a declared, undefined atom the behaviour of its LAST declaration (free = choice, true = fact,
+   false / release = nothing).  Without the extensions Pout has no external declarations - they have become the choice rule /
+   facts among its rules; with the extensions Pout declares `external(m a, value)` (c02_external_pass) and Sem.answer reads
+   them the same way; in both modes the bijection of answer sets is therefore the statement "same behaviour of externals".
+   REMAINING GAP to the full c02_equiv: (b) heuristic / edge directives under ext = true (their `aux :- cond` is covered by
+   c02_defext, but the `_heuristic(..)` / `_edge(..)` / `_atom(..)` symbols add shown names the input does not have, so the
+   shown-name clause needs a statement modulo those names); (c) several steps (ext = true only; c02_map gives the stability
+   of the map across steps; fresh_step would become "head flags = heads of earlier steps"). *)
+Theorem c02_equiv_partial2 : forall ext ds s0 s1 o1 s2 o2,
+  forallb okc ds = true -> Forall call_wf ds -> Inv s0 -> fresh_step s0 ->
+  cv_run ext s0 ds = Ok (s1, o1) -> cv_call ext s1 CEnd = Ok (s2, o2) -> next s2 <= 2 ^ smid_bits ->
+  let m := img s2 in let Pin := of_calls ds in let Pout := of_calls (o1 ++ o2) in let atoms := step_atoms m ds in
+  exists fw : interp -> interp,
+    (forall a b, In a atoms -> In b atoms -> m a = m b -> a = b) /\
+    (forall X, answer Pin X ->
+       answer Pout (fw X) /\ (forall a, In a atoms -> fw X (m a) = X a) /\
+       (forall n, shown Pin X n <-> shown Pout (fw X) n) /\
+       (forall prio, cost (p_min Pout) prio (fw X) = cost (p_min Pin) prio X - negs ds prio)) /\
+    (forall X', answer Pout X' -> answer Pin (pull m atoms X') /\ forall y, fw (pull m atoms X') y = X' y) /\
+    (forall X a, answer Pin X -> pull m atoms (fw X) a = X a).
+Proof. exact equiv_step. Qed.
+Print Assumptions c02_equiv_partial2.
+
+Example c02_equiv_partial2_nonvacuous :
+  let ds := [CRule 1 [1; 2] []; CWRule 1 [3; 4] 2 [(1, 1); (2, 1)]; CRule 0 [] [3; 4]; COutput [97] [1]; COutput [98] [1; -2];
+             CExternal 5 0; CExternal 6 1; CRule 0 [7] [5; 6]; CMin 0 [(1, -3); (7, 1)]; CMin 0 [(2, 2)]] in
+  forallb okc ds = true /\ Forall call_wf ds /\ Inv cv0 /\ fresh_step cv0 /\
+  (exists s1 o1 s2 o2, cv_run false cv0 ds = Ok (s1, o1) /\ cv_call false s1 CEnd = Ok (s2, o2) /\ next s2 <= 2 ^ smid_bits /\
+    rules_of (o1 ++ o2) =
+      [mkRule true [2; 3] (BNormal []); mkRule false [6] (BSum 2 [(2, 1); (3, 1)]); mkRule true [4; 5] (BNormal [6]);
+       mkRule false [1] (BNormal [4; 5]); mkRule false [7] (BNormal [2; -3]); mkRule false [10] (BNormal [8; 9]);
+       mkRule false [9] (BNormal []); mkRule true [8] (BNormal [])] /\
+    outs_of (o1 ++ o2) = [([97], [2]); ([98], [7])] /\ mins_of (o1 ++ o2) = [(0, [(-2, 3); (10, 1); (3, 2)])] /\
+    asm_of (o1 ++ o2) = [-1]) /\
+  (exists s1 o1 s2 o2, cv_run true cv0 ds = Ok (s1, o1) /\ cv_call true s1 CEnd = Ok (s2, o2) /\ next s2 <= 2 ^ smid_bits /\
+    decls (o1 ++ o2) = [(8, 0); (9, 1)] /\ outs_of (o1 ++ o2) = [([97], [2]); ([98], [7])]).
+Proof.
+  cbv zeta. split; [reflexivity|]. split.
+  - repeat match goal with
+           | |- Forall _ (_ :: _) => apply Forall_cons
+           | |- Forall _ [] => apply Forall_nil
+           | |- nul_free _ => unfold nul_free
+           | |- _ /\ _ => split
+           | |- _ \/ _ => first [left; reflexivity | right; reflexivity]
+           | |- _ => progress simpl
+           | |- _ => lia
+           end.
+  - split; [exact Inv_cv0|]. split; [repeat split|]. split.
+    + do 4 eexists. split; [vm_compute; reflexivity|]. split; [vm_compute; reflexivity|]. split; [vm_compute; discriminate|].
+      repeat split; vm_compute; reflexivity.
+    + do 4 eexists. split; [vm_compute; reflexivity|]. split; [vm_compute; reflexivity|]. split; [vm_compute; discriminate|].
+      split; vm_compute; reflexivity.
 Qed.
